@@ -1087,6 +1087,57 @@ class Machine:
             return lanewise(lambda x: F(T("uf", n1, x.t), x.w), vals[0])
         if n1 in ("pow", "atan2"):
             return lanewise(lambda x, y: F(T("uf", n1, x.t, y.t), x.w), vals[0], vals[1])
+        if n1 == "is" and len(base) > 2 and base[2] == "fpclass":
+            # llvm.is.fpclass(x, mask) read NaN-free like fcmp ord/uno above: the finite classes are sign/zero tests, the infinities comparisons with +-inf
+            mask = vals[1].v
+            PINF, NINF = T("inf", 1), T("inf", -1)
+
+            def cls(x):
+                parts = []
+                if x.t[0] == "fdiv":
+                    # class of a quotient a / b decided from the signs of a and b, so that b == 0 (quotient infinite or NaN) is a reachable case and not
+                    # excluded by the division's domain condition; overflow/underflow of the quotient is not modelled (real reading)
+                    a_, b_ = x.t[1], x.t[2]
+                    gt, lt, eq = (lambda u: T("fcmp", "ogt", u, ZERO)), (lambda u: T("fcmp", "olt", u, ZERO)), (lambda u: T("fcmp", "oeq", u, ZERO))
+                    AND, OR, NOT = (lambda p_, q_: T("and", p_, q_)), (lambda p_, q_: T("or", p_, q_)), (lambda p_: T("not", p_))
+                    if ((mask >> 3) & 3) not in (0, 3) or ((mask >> 7) & 3) not in (0, 3) or ((mask >> 5) & 3) not in (0, 3) or (mask & 3) not in (0, 3) or bool(mask & 4) != bool(mask & 512):
+                        raise NotEncoded(f"llvm.is.fpclass mask {mask} on a quotient")
+                    if mask & 3:
+                        parts.append(AND(eq(a_), eq(b_)))
+                    if mask & 4:
+                        parts.append(AND(NOT(eq(a_)), eq(b_)))
+                    if (mask >> 3) & 3:
+                        parts.append(OR(AND(gt(a_), lt(b_)), AND(lt(a_), gt(b_))))
+                    if (mask >> 5) & 3:
+                        parts.append(AND(eq(a_), NOT(eq(b_))))
+                    if (mask >> 7) & 3:
+                        parts.append(OR(AND(gt(a_), gt(b_)), AND(lt(a_), lt(b_))))
+                    if not parts:
+                        return I(0, 1)
+                    c = parts[0]
+                    for q in parts[1:]:
+                        c = T("or", c, q)
+                    return C(c)
+                neg_fin, pos_fin, zero = (mask >> 3) & 3, (mask >> 7) & 3, (mask >> 5) & 3
+                if neg_fin not in (0, 3) or pos_fin not in (0, 3) or zero not in (0, 3):
+                    raise NotEncoded(f"llvm.is.fpclass mask {mask} separates normal/subnormal or the signs of zero")
+                if mask & 4:
+                    parts.append(T("fcmp", "oeq", x.t, NINF))
+                if neg_fin:
+                    parts.append(T("and", T("fcmp", "olt", x.t, ZERO), T("fcmp", "ogt", x.t, NINF)))
+                if zero:
+                    parts.append(T("fcmp", "oeq", x.t, ZERO))
+                if pos_fin:
+                    parts.append(T("and", T("fcmp", "ogt", x.t, ZERO), T("fcmp", "olt", x.t, PINF)))
+                if mask & 512:
+                    parts.append(T("fcmp", "oeq", x.t, PINF))
+                if not parts:
+                    return I(0, 1)
+                c = parts[0]
+                for q in parts[1:]:
+                    c = T("or", c, q)
+                return C(c)
+            return lanewise(cls, vals[0])
         if n1 == "copysign":
             return lanewise(lambda x, y: F(T("copysign", x.t, y.t), x.w), vals[0], vals[1])
         if n1 in ("minnum", "maxnum", "minimum", "maximum"):
